@@ -72,7 +72,16 @@ _W = [
     # impossible spread below a list typed field; unknown input field below a non-null input object
     "{ anchor(req: 1, inn: {v: 1}, lnn: [1]) { others { ...Q } } } fragment Q on Query { __typename }",
     "{ anchor(req: 1, inn: {zzz: 1}, lnn: [1]) { id } }",
+    # seeded C06-a: one key under exclusive parents, the spread fragment clashes with the second entry only
+    "{ anchor(req: 1, inn: {v: 1}, lnn: [1]) { ... on Query { n: __typename } ... on AnchorObj { n: name } ...ExF } } "
+    "fragment ExF on AnchorObj { ... on AnchorObj { n: id } }",
+    "{ anchor(req: 1, inn: {v: 1}, lnn: [1]) { ... on AnchorObj { n: name } ... on Query { n: __typename } ...ExF } } "
+    "fragment ExF on AnchorObj { ... on AnchorObj { n: id } }",
 ]
+# seeded C05-a: a fragment's field node is the first of two merged nodes at two places
+_MERGE = ("{ a: anchor(req: 1, inn: {v: 1}, lnn: [1]) { ...MF self { name } } "
+          "b: anchor(req: 1, inn: {v: 1}, lnn: [1]) { ...MF self { count } } } "
+          "fragment MF on AnchorObj { self { id } }")
 # row 18: transitive fragment use through 3 fragments in every definition order
 _CHAIN = ["fragment Ta on AnchorObj { ...Tb }", "fragment Tb on AnchorObj { ...Tc }",
           "fragment Tc on AnchorObj { others(first: $v) { id } }"]
@@ -86,6 +95,9 @@ def corpus():
                      "query Q { anchor(req: 1, inn: {v: 1}, lnn: [1]) { ...Ta } }"):
             out.append({"kind": "rules", "sdl": WITNESS_SDL, "text": head + " " + " ".join(perm), "origin": "witness"})
     out.append({"kind": "shape", "sdl": WITNESS_SDL, "text": _W[0], "opname": None, "vars": {}, "world": 0, "origin": "witness"})
+    for world in (0, 1, 2):
+        out.append({"kind": "shape", "sdl": WITNESS_SDL, "text": _MERGE, "opname": None, "vars": {}, "world": world,
+                    "origin": "witness"})
     return out
 
 
